@@ -82,7 +82,19 @@ Definition rb_ok (c : grammar * N) : bool :=
   match run_gen (fst c) (snd c) with inl m => reads_back_as (rules (fst c)) m && no_left_rec m && no_wi m | inr _ => false end.
 Definition rba_ok (c : grammar * N) : bool :=
   match run_gen (fst c) (snd c) with inl m => reads_back_with_actions (rules (fst c)) m | inr _ => false end.
+From Pegen Require Import Proofs.ExecStrip.
+Definition fp_ok (c : grammar * N) : bool :=
+  match run_gen (fst c) (snd c) with
+  | inl m => reads_back_with_actions (strip_rules (has_invalid_alt invalid_tbl iter_fields_tbl) (rules (fst c))) (strip_module m)
+  | inr _ => false
+  end.
 """
+# grammars with invalid_ rules whose FIRST pass the theorem must keep covering
+RBF_SEEDS = [
+    "start: a NEWLINE\na: invalid_a | NAME\ninvalid_a: NUMBER { foo() }\n",
+    "start: stmt* NEWLINE\nstmt: invalid_stmt | NAME '=' NUMBER | NAME\ninvalid_stmt: a=NAME '=' b=NAME { foo(a, b) }\n",
+    "start: a=NAME b=[invalid_b | NUMBER] NEWLINE { foo(a, b) }\ninvalid_b: '+' { foo() }\n",
+]
 # shapes with explicit actions the action-aware end-to-end theorem must keep covering
 RBA_SEEDS = [
     "start: a=NAME b=NUMBER NEWLINE { foo(a, b) } | (x=NUMBER { [x] }) NEWLINE\n",
@@ -369,7 +381,7 @@ def run(chk: common.Check, tier: str):
     # character, what the real generator writes (the same comparison C10 makes on its own grammars)
     import genmodel as gm
     kcases = []
-    for t in RB_SEEDS + [x for x in texts if x not in RB_SEEDS and "{" not in x][:40]:
+    for t in RB_SEEDS + RBA_SEEDS + RBF_SEEDS + [x for x in texts if x not in RB_SEEDS and "{" not in x][:40]:
         try:
             c, _res = gm.case(g2c.read_grammar(t))
         except (SyntaxError, g2c.Untranslatable):
@@ -379,7 +391,7 @@ def run(chk: common.Check, tier: str):
     badk = common.run_cases(chk, "rb_kgen", gm.prelude(tokens_set()), gm.CASE_T, kcases, gm.OK, shard=16, timeout=900)
     if badk is not None:
         chk.oblige(f"correspondence K-gen on the grammars of the end-to-end theorem: Gen/Render.v over the generator model's IR equals "
-                   f"the real generator's output text on {len(kcases)} action-free grammars (the RB_SEEDS floor and explored ones)",
+                   f"the real generator's output text on {len(kcases)} grammars (the RB_SEEDS, RBA_SEEDS and RBF_SEEDS floors and explored action-free ones)",
                    not badk, json.dumps(badk[:5]))
     floor2 = [rb_term(t) for t in RBA_SEEDS]
     bad2 = common.run_cases(chk, "rba_floor", prelude + RB_PRELUDE, "(grammar * N)", [x for x in floor2 if x], "rba_ok", shard=4, timeout=600)
@@ -388,6 +400,13 @@ def run(chk: common.Check, tier: str):
                    f"reads_back_with_actions (rules g) (generate g) = true for the {len(RBA_SEEDS)} shapes of RBA_SEEDS (actions over named "
                    "items, in groups, in repetition and gather bodies, over default and repeated names)",
                    not bad2 and all(floor2), json.dumps([RBA_SEEDS[i] for i in bad2]))
+    floor3 = [rb_term(t) for t in RBF_SEEDS]
+    bad4 = common.run_cases(chk, "rbf_floor", prelude + RB_PRELUDE, "(grammar * N)", [x for x in floor3 if x], "fp_ok", shard=4, timeout=600)
+    if bad4 is not None:
+        chk.oblige("instance condition of C01_first_pass_implements_the_grammar_without_its_invalid_alternatives: the stripped module "
+                   "reads back as the source grammar without the alternatives mentioning an invalid_ rule (strip_rules with the extracted "
+                   f"InvalidNodeVisitor table), for the {len(RBF_SEEDS)} shapes of RBF_SEEDS",
+                   not bad4 and all(floor3), json.dumps([RBF_SEEDS[i] for i in bad4]))
     rnd = [(t, rb_term(t)) for t in texts if t not in RB_SEEDS]
     rnd = [(t, x) for t, x in rnd if x]
     bad = common.run_cases(chk, "rb_rnd", prelude + RB_PRELUDE, "(grammar * N)", [x for _, x in rnd], "rb_ok", shard=40, timeout=900)
